@@ -176,9 +176,21 @@ def termless_case(rng):
             "weight": 1.0, "rows": [row]}
 
 
+def vars_of(t):
+    return [t[1]] if t[0] in ("prop", "any") else vars_of(t[1]) + vars_of(t[2])
+
+
 def make_case(rng):
     if rng.random() < 0.02:
         return termless_case(rng)
+    if rng.random() < 0.03:
+        # a well-formed rule one of whose variables loses its terms after Rule.load: the variable object is false
+        # (`Variable.__len__`), the evaluation raises ValueError (model: `DegCtx.hasTerms`, Op.degree)
+        case = make_case(rng)
+        if case["kind"] == "wf":
+            case["kind"] = "lost_terms"
+            case["clear_after_load"] = sorted(set(rng.sample(vars_of(case["tree"]), 1)))
+        return case
     vars_ = gen_engine(rng)
     tree = gen_ante(rng, vars_, rng.choice([0, 1, 2, 2, 3, 3, 4, 4]))
     style = rng.choice(["min", "min", "rand", "rand", "full"])
@@ -464,8 +476,12 @@ def var_sx(v):
 
 def model_line(case):
     rows = [[[C.hexs(k), float(x)] for k, x in row.items()] for row in case["rows"]]
-    return C.sx(["rule", C.hexs(case["text"]), [var_sx(v) for v in case["vars"]],
-                 [case["conj"] or "none", case["disj"] or "none"], rows])
+    line = ["rule", C.hexs(case["text"]), [var_sx(v) for v in case["vars"]],
+            [case["conj"] or "none", case["disj"] or "none"], rows]
+    if case.get("clear_after_load"):
+        # the variables that lose their terms after Rule.load: `hasTerms` of the model's evaluation context is false for them
+        line.append([C.hexs(n) for n in case["clear_after_load"]])
+    return C.sx(line)
 
 
 def unhex(a):
@@ -514,8 +530,6 @@ def correspond(ctx):
                 engine = build_engine(case)
                 for i, md in enumerate(m[5]):
                     got = r["degrees"][i]
-                    if case.get("kind") == "lost_terms":
-                        md = ["err", "value"]    # C06.code_activationDegree: not all variables have a term -> ValueError
                     if isinstance(md, list):     # (err kind)
                         if got != md[1]:
                             bad = f"row {i}: model raises {md[1]}, implementation {got!r}"
